@@ -88,8 +88,8 @@ func (t *Table) ID(rt reflect.Type) int {
 	return id
 }
 
-// driverText is the canonical text of x as the database driver receives it.
-func driverText(v reflect.Value) string {
+// DriverText is the canonical text of x as the database driver receives it.
+func DriverText(v reflect.Value) string {
 	if !v.IsValid() {
 		return "<nil>:<nil>"
 	}
@@ -112,7 +112,7 @@ func (t *Table) val(v reflect.Value, depth int) any {
 	if !v.IsValid() {
 		return nil
 	}
-	m := map[string]any{"t": t.ID(v.Type()), "z": v.IsZero(), "r": driverText(v)}
+	m := map[string]any{"t": t.ID(v.Type()), "z": v.IsZero(), "r": DriverText(v)}
 	if depth > 12 {
 		m["k"] = "leaf"
 		return m
